@@ -58,10 +58,12 @@ type Dataset struct {
 	fullSyncStarted      bool
 	fullSyncLease        *fullSyncLease
 	fullSyncSeen         map[uint64]int
-	isChangeCache        bool      // indicates if this is a local change cache
-	dataChangeNotifiers  []string  // list of endpoints to ping after new batch committed.
-	cache                []*Entity // cache of recently updated entities.
-	cacheStartOffset     uint32    // log position start in cache
+	fullSyncMu           sync.Mutex // guards the fullSync* fields: requests, jobs and the lease timeout touch them concurrently
+	fullSyncGeneration   uint64     // incremented by every StartFullSync
+	isChangeCache        bool       // indicates if this is a local change cache
+	dataChangeNotifiers  []string   // list of endpoints to ping after new batch committed.
+	cache                []*Entity  // cache of recently updated entities.
+	cacheStartOffset     uint32     // log position start in cache
 	markedForDeletion    bool
 	PublicNamespaces     []string `json:"publicNamespaces"`
 	fullSyncID           string
@@ -81,7 +83,10 @@ func NewDataset(store *Store, id string, internalID uint32, subjectIdentifier st
 
 // StartFullSync Indicates that a full sync is starting
 func (ds *Dataset) StartFullSync() error {
+	ds.fullSyncMu.Lock()
+	defer ds.fullSyncMu.Unlock()
 	verifhook.Access(ds, "Dataset.fullSyncState", true)
+	ds.fullSyncGeneration++
 	if ds.fullSyncStarted {
 		if ds.fullSyncLease != nil && ds.fullSyncLease.cancel != nil {
 			ds.fullSyncLease.cancel()
@@ -101,12 +106,16 @@ func (ds *Dataset) StartFullSyncWithLease(fullSyncID string) error {
 	if err := ds.StartFullSync(); err != nil {
 		return err
 	}
+	ds.fullSyncMu.Lock()
 	ds.fullSyncID = fullSyncID
+	ds.fullSyncMu.Unlock()
 
 	return ds.RefreshFullSyncLease(fullSyncID)
 }
 
 func (ds *Dataset) RefreshFullSyncLease(fullSyncID string) error {
+	ds.fullSyncMu.Lock()
+	defer ds.fullSyncMu.Unlock()
 	verifhook.Access(ds, "Dataset.fullSyncState", true)
 	if ds.fullSyncStarted {
 		if fullSyncID == ds.fullSyncID {
@@ -122,15 +131,19 @@ func (ds *Dataset) RefreshFullSyncLease(fullSyncID string) error {
 				cancel,
 			}
 
+			currentFsID := ds.fullSyncID
 			go func() {
-				currentFsID := ds.fullSyncID
-
 				<-ctx.Done()
 				endTime, ok := ctx.Deadline()
 				// time out was the cause
 				now := time.Now()
+				ds.fullSyncMu.Lock()
+				defer ds.fullSyncMu.Unlock()
 				verifhook.Access(ds, "Dataset.fullSyncState", false)
-				if ok && now.After(endTime) && ds.fullSyncID == currentFsID {
+				// only a lease that really timed out ends the fullsync. a lease that was cancelled (refreshed, released)
+				// can be seen here after its deadline has passed as well, but then the fullsync is still going on
+				// or being completed, and its state must not be reset underneath it
+				if ok && now.After(endTime) && ctx.Err() == context.DeadlineExceeded && ds.fullSyncID == currentFsID {
 					verifhook.Access(ds, "Dataset.fullSyncState", true)
 					ds.fullSyncStarted = false
 					ds.fullSyncSeen = make(map[uint64]int)
@@ -151,6 +164,8 @@ func (ds *Dataset) RefreshFullSyncLease(fullSyncID string) error {
 }
 
 func (ds *Dataset) ReleaseFullSyncLease(fullSyncID string) error {
+	ds.fullSyncMu.Lock()
+	defer ds.fullSyncMu.Unlock()
 	verifhook.Access(ds, "Dataset.fullSyncState", false)
 	if ds.fullSyncLease == nil {
 		return errors.New("no active fullsync lease found, can't complete")
@@ -164,14 +179,21 @@ func (ds *Dataset) ReleaseFullSyncLease(fullSyncID string) error {
 
 // CompleteFullSync Full sync completed - mark unseen entities as deleted
 func (ds *Dataset) CompleteFullSync(ctx context.Context) error {
-	verifhook.Access(ds, "Dataset.fullSyncState", false)
-	defer func() {
-		verifhook.Access(ds, "Dataset.fullSyncState", true)
-		ds.fullSyncStarted = false
-		ds.fullSyncSeen = make(map[uint64]int) // release sync state
-		ds.fullSyncLease = nil                 // unset lease
-		ds.fullSyncID = ""                     // unset id
-	}()
+	// take the set of seen entities and end the fullsync right away, under the lock. the lease timeout and
+	// requests arriving while the unseen entities are being deleted can then no longer change the set
+	ds.fullSyncMu.Lock()
+	verifhook.Access(ds, "Dataset.fullSyncState", true)
+	if !ds.fullSyncStarted {
+		// the fullsync has ended in the meantime (its lease expired): nothing is known about what it contained
+		ds.fullSyncMu.Unlock()
+		return errors.New("no fullsync is running, nothing is deleted")
+	}
+	seen := ds.fullSyncSeen
+	ds.fullSyncStarted = false
+	ds.fullSyncSeen = make(map[uint64]int) // release sync state
+	ds.fullSyncLease = nil                 // unset lease
+	ds.fullSyncID = ""                     // unset id
+	ds.fullSyncMu.Unlock()
 
 	// check all seen and mark deleted
 	txn := ds.store.database.NewTransaction(true)
@@ -183,7 +205,7 @@ func (ds *Dataset) CompleteFullSync(ctx context.Context) error {
 			return ctx.Err()
 		}
 		if !e.IsDeleted {
-			_, ok := ds.fullSyncSeen[e.InternalID]
+			_, ok := seen[e.InternalID]
 			if !ok {
 				// data no longer in source so delete it
 				e.IsDeleted = true
@@ -336,11 +358,13 @@ func (ds *Dataset) StoreEntitiesWithTransaction(
 		e.InternalID = rid // set internal id on entity
 		e.Recorded = uint64(txnTime)
 
+		ds.fullSyncMu.Lock()
 		verifhook.Access(ds, "Dataset.fullSyncState", false)
 		if ds.fullSyncStarted {
 			verifhook.Access(ds, "Dataset.fullSyncState", true)
 			ds.fullSyncSeen[e.InternalID] = 1
 		}
+		ds.fullSyncMu.Unlock()
 
 		jsonData, _ := json.Marshal(e)
 		jsonLength := len(jsonData)
@@ -1143,5 +1167,15 @@ func (ds *Dataset) GetContext() *Context {
 }
 
 func (ds *Dataset) FullSyncStarted() bool {
+	ds.fullSyncMu.Lock()
+	defer ds.fullSyncMu.Unlock()
 	return ds.fullSyncStarted
+}
+
+// FullSyncGeneration identifies the fullsync that was started last. A party that has no sync id
+// (a job) uses it to find out whether the fullsync it started is still the running one.
+func (ds *Dataset) FullSyncGeneration() uint64 {
+	ds.fullSyncMu.Lock()
+	defer ds.fullSyncMu.Unlock()
+	return ds.fullSyncGeneration
 }
